@@ -467,6 +467,135 @@ func (x *codecExplorer) explore() {
 			}
 			x.c.Tick()
 		}
+		// alignment family: an element sized so that it ends exactly at (and up to three octets around) a block size a
+		// buffered reader or a pass-wise implementation is likely to use — 4096 and 8192 octets (thorough: 512 .. 65 536) —
+		// followed by nothing, by every minimal optional element and by stray octets. The aligned element is a mandatory
+		// length-prefixed element, or the last of as many maximal copies of an optional element as fit in front.
+		{
+			targets := []int{4096, 8192}
+			if thorough {
+				targets = []int{512, 1024, 2048, 4096, 8192, 16384, 32768, 65536}
+			}
+			var followers [][]byte
+			followers = append(followers, nil)
+			for _, t := range optTokens(m, false) {
+				if isMinTok(m, t) {
+					followers = append(followers, renderTok(m, t))
+				}
+			}
+			run := func(prefix []byte) {
+				for _, f := range followers {
+					full := append(append([]byte{}, prefix...), f...)
+					x.states++
+					x.trans++
+					x.sweep(m, full, len(prefix), nil)
+				}
+			}
+			for i := range m.Slots {
+				s := &m.Slots[i]
+				if s.LenSize == 0 || s.Half {
+					continue
+				}
+				if !x.mine() {
+					continue
+				}
+				if !x.c.Begin("state", m.Name, map[string]any{"msg": m.Name, "alignment_family": s.Name}) {
+					continue
+				}
+				for _, T := range targets {
+					for sh := -3; sh <= 3; sh++ {
+						end := T + sh
+						if !s.Optional {
+							// mandatory: position of the element inside the mandatory part at minimum lengths
+							probe := renderMandatory(m, i, tok{Slot: i, L: s.Min, Pat: 2})
+							l := s.Min + end - len(probe)
+							// only meaningful if this is the last mandatory element (everything behind it is optional)
+							last := true
+							for j := i + 1; j < len(m.Slots); j++ {
+								if !m.Slots[j].Optional {
+									last = false
+								}
+							}
+							if !last || l < s.Min || l > s.Max {
+								continue
+							}
+							run(renderMandatory(m, i, tok{Slot: i, L: l, Pat: 2}))
+							continue
+						}
+						hdr := 1 + s.LenSize
+						prefix := append([]byte{}, base...)
+						for end-len(prefix) > hdr+s.Max {
+							// leave room for a final copy of at least the minimum size
+							l := s.Max
+							if rest := end - len(prefix) - (hdr + l); rest < hdr+s.Min {
+								l -= hdr + s.Min - rest
+							}
+							if l < s.Min {
+								break
+							}
+							prefix = append(prefix, renderTok(m, tok{Slot: i, L: l, Pat: 2})...)
+						}
+						l := end - len(prefix) - hdr
+						if l < s.Min || l > s.Max {
+							continue
+						}
+						prefix = append(prefix, renderTok(m, tok{Slot: i, L: l, Pat: 1})...)
+						if len(prefix) != end {
+							continue
+						}
+						run(prefix)
+					}
+				}
+				x.c.Tick()
+			}
+		}
+		// dense canonical inputs: all optional elements present in table order at their minimum, except any zero, one or
+		// two (thorough: three) of them; every prefix and every suffix of the optional list; each with two content
+		// patterns — what an encoder or decoder does with *many* elements at once (a sort, a table, a counter) is not
+		// reached by strings of two or three tokens
+		{
+			var opt []int
+			for i := range m.Slots {
+				if m.Slots[i].Optional {
+					opt = append(opt, i)
+				}
+			}
+			if len(opt) >= 4 && x.mine() && x.c.Begin("state", m.Name, map[string]any{"msg": m.Name, "dense_presence_family": len(opt)}) {
+				emit := func(absent map[int]bool, lo, hi int) {
+					for _, pat := range []int{0, 2} {
+						full := append([]byte{}, base...)
+						for k, i := range opt {
+							if absent[k] || k < lo || k >= hi {
+								continue
+							}
+							t := tok{Slot: i, L: m.Slots[i].Min, Pat: pat}
+							full = append(full, renderTok(m, t)...)
+						}
+						x.states++
+						x.trans++
+						x.run1(m, full)
+					}
+				}
+				n := len(opt)
+				emit(nil, 0, n)
+				for a := 0; a < n; a++ {
+					emit(map[int]bool{a: true}, 0, n)
+					for b := a + 1; b < n; b++ {
+						emit(map[int]bool{a: true, b: true}, 0, n)
+						if thorough {
+							for d := b + 1; d < n; d++ {
+								emit(map[int]bool{a: true, b: true, d: true}, 0, n)
+							}
+						}
+					}
+				}
+				for k := 1; k < n; k++ {
+					emit(nil, 0, k)
+					emit(nil, k, n)
+				}
+				x.c.Tick()
+			}
+		}
 		// pairs of independent features: every value class of a mandatory one-octet slot (all 16 low nibbles x two high
 		// nibbles) together with a large length of every element with a two-octet length field
 		for i := range m.Slots {
